@@ -319,8 +319,11 @@ def run_case(spec, method, processes, n, thinning, seed, nproj):
     except Exception as e:  # noqa  (a sampler may refuse a model; it must still leave it alone)
         info["outcome"] = f"raised {type(e).__name__}: {str(e)[:80]}"
         # the models are pre-selected by the exact oracle (feasible, finite bounds, >= 2 reactions with a non-degenerate
-        # range): the requested number of samples has to be returned
-        fail("raised", f"no samples: {type(e).__name__}: {e}")
+        # range): the requested number of samples has to be returned - except for the two refusals the samplers document
+        # (flux space is a single point / an inhomogeneous problem whose flux space is a line: 2 warm-up points)
+        documented = isinstance(e, ValueError) and ("only 2 search directions" in str(e) or "single point" in str(e))
+        if not documented:
+            fail("raised", f"no samples: {type(e).__name__}: {e}")
     d = diff_obs(before, flat_obs(m, with_opt=False))
     if d:
         fail("model-changed", f"the model changed: {fmt_diff(d)}")
